@@ -32,6 +32,8 @@ from asynq.batching import BatchBase, BatchCancelledError, BatchingError, BatchI
 
 
 class VErr(Exception):
+    __bool__ = lambda self: False       # unusual but legal: a falsy exception object
+
     def __init__(self, code):
         Exception.__init__(self, code)
         self.code = code
